@@ -89,5 +89,8 @@ func (s *Server) DiscoveryRequest(req *pool.Message, address string, receiverFun
 		return nil
 	case <-s.ctx.Done():
 		return fmt.Errorf("server was closed: %w", s.ctx.Err())
+	case <-s.doneCtx.Done():
+		// Serve has returned - the connection it served was closed without Stop: no answer can arrive any more
+		return errors.New("server does not serve any more: its connection was closed")
 	}
 }
